@@ -19,6 +19,7 @@ import (
 
 	log "github.com/sirupsen/logrus"
 
+	windataplane "github.com/projectcalico/calico/felix/dataplane/windows"
 	"github.com/projectcalico/calico/felix/dataplane/windows/hns"
 	"github.com/projectcalico/calico/felix/dataplane/windows/policysets"
 	"github.com/projectcalico/calico/felix/proto"
@@ -41,6 +42,10 @@ func (r *rng) chance(p int) bool { return r.intn(100) < p }
 type fakeHNS struct{ f hns.HNSSupportedFeatures }
 
 func (h *fakeHNS) GetHNSSupportedFeatures() hns.HNSSupportedFeatures { return h.f }
+func (h *fakeHNS) HNSListEndpointRequest() ([]hns.HNSEndpoint, error) {
+	return []hns.HNSEndpoint{{Id: "hns-ep-1", Name: "pod", VirtualNetworkName: "Calico-net", IPAddress: net.ParseIP("10.65.0.2"), State: hns.Attached},
+		{Id: "hns-ep-remote", Name: "other", VirtualNetworkName: "Calico-net", IPAddress: net.ParseIP("10.65.0.3"), State: hns.Attached, IsRemoteEndpoint: true}}, nil
+}
 
 type fakeIPSets struct{ sets map[string][]string }
 
@@ -540,6 +545,7 @@ func (g *grule) coq() string {
 
 // ---------------------------------------------------------------- implementation output
 type prule struct {
+	host           bool
 	prio           int
 	in             bool
 	act            string
@@ -597,7 +603,7 @@ func parsePorts(s string) [][2]int {
 }
 
 func parseRule(p *hns.ACLPolicy) prule {
-	if p.Type != hns.ACL || p.RuleType != hns.Switch || p.Protocols != "" || p.LocalPort != 0 || p.RemotePort != 0 || p.InternalPort != 0 || p.ServiceName != "" {
+	if p.Type != hns.ACL || (p.RuleType != hns.Switch && p.RuleType != hns.Host) || p.Protocols != "" || p.LocalPort != 0 || p.RemotePort != 0 || p.InternalPort != 0 || p.ServiceName != "" {
 		panic(fmt.Sprintf("HNS rule uses fields outside the model: %+v", *p))
 	}
 	act := map[hns.ActionType]string{hns.Allow: "HAllow", hns.Block: "HBlock", policysets.ActionPass: "HPass"}[p.Action]
@@ -607,7 +613,7 @@ func parseRule(p *hns.ACLPolicy) prule {
 	if p.Direction != hns.In && p.Direction != hns.Out {
 		panic("unknown direction")
 	}
-	return prule{prio: int(p.Priority), in: p.Direction == hns.In, act: act, proto: int(p.Protocol),
+	return prule{host: p.RuleType == hns.Host, prio: int(p.Priority), in: p.Direction == hns.In, act: act, proto: int(p.Protocol),
 		laddrs: parseAddrs(p.LocalAddresses), raddrs: parseAddrs(p.RemoteAddresses), lports: parsePorts(p.LocalPorts), rports: parsePorts(p.RemotePorts)}
 }
 
@@ -780,7 +786,7 @@ func coqBool(b bool) string {
 func newPS(w *world, r *rng) *policysets.PolicySets {
 	h := &fakeHNS{}
 	h.f.Acl.AclRuleId = r.chance(50)
-	h.f.Acl.AclNoHostRulePriority = true
+	h.f.Acl.AclNoHostRulePriority = r.chance(50)
 	return policysets.NewPolicySets(h, []policysets.IPSetCache{w.cache}, noStatic{})
 }
 
@@ -899,7 +905,7 @@ func tierCase(r *rng, kind string) line {
 	for _, p := range pols {
 		cp = append(cp, fmt.Sprintf("(%s, PS %s %s)", coqBool(p.present), coqRuleList(p.in), coqRuleList(p.out)))
 	}
-	coq := fmt.Sprintf("(TierCase (mkCase %s 4000 [%s] %s %s %s %s))%%N", w.coq(), strings.Join(cp, ";"), coqBool(inbound), coqBool(eot), coqRules(impl), coqPkts(pkts))
+	coq := fmt.Sprintf("(Old (TierCase (mkCase %s 4000 [%s] %s %s %s %s)))%%N", w.coq(), strings.Join(cp, ";"), coqBool(inbound), coqBool(eot), coqRules(impl), coqPkts(pkts))
 	// non-trivial: at least two policy rules rendered and some connection decided by a rule other than the default
 	hit := false
 	for _, p := range pkts {
@@ -1017,7 +1023,7 @@ func ruleCase(r *rng, kind string) line {
 		panic("unexpected error " + err.Error())
 	}
 	pkts := genPackets(r, w, []*grule{g}, 10)
-	coq := fmt.Sprintf("(RuleCase (mkRCase %s %d %s %s %s %s))%%N", w.coq(), chunk, g.coq(), coqBool(inbound), impl, coqPkts(pkts))
+	coq := fmt.Sprintf("(Old (RuleCase (mkRCase %s %d %s %s %s %s)))%%N", w.coq(), chunk, g.coq(), coqBool(inbound), impl, coqPkts(pkts))
 	hit := false
 	for _, p := range pkts {
 		for _, h := range prs {
@@ -1043,24 +1049,388 @@ func main() {
 	log.SetLevel(log.PanicLevel)
 	r := &rng{s: *seed}
 	enc := json.NewEncoder(os.Stdout)
+	fixedTree := probeCombinePorts()
 	for i := 0; i < *n; i++ {
 		var l line
-		switch k := r.intn(100); {
-		case k < 45:
+		switch k := r.intn(200); {
+		case k < 50:
 			l = tierCase(r, "tier")
-		case k < 75:
+		case k < 80:
 			l = ruleCase(r, "rule")
-		case k < 83:
-			l = tierCase(r, "unsupported")
-		case k < 88:
-			l = ruleCase(r, "rule-unsupported")
 		case k < 90:
+			l = tierCase(r, "unsupported")
+		case k < 96:
+			l = ruleCase(r, "rule-unsupported")
+		case k < 100:
 			l = ruleCase(r, "rule-services-plus")
-		case k < 99:
+		case k < 108:
 			l = tierCase(r, "staged")
-		default:
+		case k < 109:
 			l = tierCase(r, "big")
+		case k < 165:
+			l = epCase(r, "ep", fixedTree)
+		case k < 175:
+			l = epCase(r, "ep-lastpass", fixedTree)
+		case k < 183:
+			l = epCase(r, "ep-staged", fixedTree)
+		case k < 190:
+			l = epCase(r, "ep-ports", fixedTree)
+		default:
+			l = prioCase(r)
 		}
 		_ = enc.Encode(l)
 	}
+}
+
+// ---------------------------------------------------------------- endpoint level
+
+// which combinePorts does the tree have?  (fixes/C30-combine-ports-empty-and-last-port.patch)
+func probeCombinePorts() bool {
+	empty, lastPort := false, false
+	func() {
+		defer func() { _ = recover() }()
+		_, err := windataplane.VerifCombinePorts("80", "443")
+		empty = err == policysets.ErrRuleIsNoOp
+	}()
+	func() {
+		defer func() { _ = recover() }()
+		s, err := windataplane.VerifCombinePorts("80", "80")
+		lastPort = err == nil && s == "80"
+	}()
+	return empty && lastPort
+}
+
+type etpol struct {
+	present, in, out bool
+	rin, rout        []*grule
+	name             string
+}
+type etier struct {
+	name        string
+	defaultPass bool
+	pols        []*etpol
+}
+
+func hasPorts(g *grule, src bool) bool {
+	if src {
+		return len(g.srcPorts) > 0
+	}
+	return len(g.dstPorts) > 0
+}
+
+func genEpRules(r *rng, inbound bool, n int, passPct int, allowPass bool, portsInPass bool) []*grule {
+	var out []*grule
+	for i := 0; i < n; i++ {
+		g := genRule(r, inbound, false, !allowPass)
+		if allowPass && r.chance(passPct) && len(g.ipportSets) == 0 {
+			g.action, g.actionText = "pass", []string{"pass", "Pass", "next-tier"}[r.intn(3)]
+		}
+		if g.action == "pass" && !portsInPass {
+			g.srcPorts, g.dstPorts = nil, nil
+		}
+		out = append(out, g)
+	}
+	return out
+}
+
+func epCase(r *rng, kind string, fixedTree bool) line {
+	w := genWorld(r, false)
+	ps := newPS(w, r)
+	noHostPrio := ps.VerifFeatures().Acl.AclNoHostRulePriority
+	tags := []string{"kind:" + kind}
+	// tiers
+	var tiers []*etier
+	names := []string{"tier-a", "tier-b", "default"}
+	for i, nm := range names {
+		if !r.chance([]int{55, 45, 70}[i]) {
+			continue
+		}
+		t := &etier{name: nm, defaultPass: r.chance(30)}
+		npol := 1 + r.intn(2)
+		for j := 0; j < npol; j++ {
+			q := &etpol{present: true, name: fmt.Sprintf("%s-p%d", nm, j)}
+			switch r.intn(4) {
+			case 0:
+				q.in = true
+			case 1:
+				q.out = true
+			default:
+				q.in, q.out = true, true
+			}
+			isDefault := nm == "default"
+			allowPass := !(isDefault && kind != "ep-lastpass")
+			portsInPass := kind == "ep-ports" || r.chance(35)
+			passPct := 45
+			if kind == "ep-ports" {
+				passPct = 70
+			}
+			q.rin = genEpRules(r, true, r.intn(4), passPct, allowPass, portsInPass)
+			q.rout = genEpRules(r, false, r.intn(4), passPct, allowPass, portsInPass)
+			if kind == "ep-ports" {
+				// make ports meet ports: tcp with destination ports everywhere
+				for _, g := range append(append([]*grule{}, q.rin...), q.rout...) {
+					if len(g.ipportSets) == 0 && (g.proto == 6 || g.proto < 0) {
+						g.proto, g.protoName = 6, "tcp"
+						if len(g.dstPorts) == 0 {
+							g.dstPorts = genPorts(r, 2)
+						}
+					}
+				}
+			}
+			if kind == "ep-staged" && r.chance(45) {
+				q.present = false
+			}
+			t.pols = append(t.pols, q)
+		}
+		if nm == "default" && kind != "ep-lastpass" {
+			t.defaultPass = false
+		}
+		tiers = append(tiers, t)
+	}
+	if kind == "ep-lastpass" {
+		// a Pass that leaves the last list: in the default tier, or in a profile
+		tags = append(tags, "has:pass-leaves-last-list")
+	}
+	// profiles
+	nprof := r.intn(3)
+	var profs []*etpol
+	for i := 0; i < nprof; i++ {
+		q := &etpol{present: true, in: true, out: true, name: fmt.Sprintf("prof-%d", i)}
+		q.rin = genEpRules(r, true, r.intn(3), 50, kind == "ep-lastpass", false)
+		q.rout = genEpRules(r, false, r.intn(3), 50, kind == "ep-lastpass", false)
+		if r.chance(50) {
+			q.rin = append(q.rin, &grule{action: "allow", actionText: "allow", proto: -1, notProto: -1})
+		}
+		profs = append(profs, q)
+	}
+	if kind == "ep-staged" {
+		any := false
+		for _, t := range tiers {
+			for _, q := range t.pols {
+				any = any || !q.present
+			}
+		}
+		if !any && len(tiers) > 0 {
+			tiers[0].pols[0].present = false
+		}
+		tags = append(tags, "has:absent-policy")
+	}
+	// feed the real policy manager (it skips staged kinds) and build the endpoint
+	toRules := func(gs []*grule, pfx string) []*proto.Rule {
+		var out []*proto.Rule
+		for j, g := range gs {
+			out = append(out, g.toProto(fmt.Sprintf("%s%d", pfx, j)))
+		}
+		return out
+	}
+	wep := &proto.WorkloadEndpoint{Name: "pod", Ipv4Nets: []string{"10.65.0.2/32"}}
+	var allIn, allOut []*grule
+	for _, t := range tiers {
+		ti := &proto.TierInfo{Name: t.name, DefaultAction: "Deny"}
+		if t.defaultPass {
+			ti.DefaultAction = "Pass"
+		}
+		for _, q := range t.pols {
+			kindName := []string{"NetworkPolicy", "GlobalNetworkPolicy"}[r.intn(2)]
+			if !q.present {
+				kindName = "Staged" + kindName
+			}
+			id := &proto.PolicyID{Name: q.name, Kind: kindName}
+			if strings.HasSuffix(kindName, "NetworkPolicy") && !strings.Contains(kindName, "Global") {
+				id.Namespace = "ns1"
+			}
+			windataplane.VerifPolicyManagerOnUpdate(ps, &proto.ActivePolicyUpdate{Id: id, Policy: &proto.Policy{InboundRules: toRules(q.rin, "i"), OutboundRules: toRules(q.rout, "o")}})
+			if q.in {
+				ti.IngressPolicies = append(ti.IngressPolicies, id)
+				allIn = append(allIn, q.rin...)
+			}
+			if q.out {
+				ti.EgressPolicies = append(ti.EgressPolicies, id)
+				allOut = append(allOut, q.rout...)
+			}
+		}
+		wep.Tiers = append(wep.Tiers, ti)
+	}
+	for _, q := range profs {
+		windataplane.VerifPolicyManagerOnUpdate(ps, &proto.ActiveProfileUpdate{Id: &proto.ProfileID{Name: q.name}, Profile: &proto.Profile{InboundRules: toRules(q.rin, "i"), OutboundRules: toRules(q.rout, "o")}})
+		wep.ProfileIds = append(wep.ProfileIds, q.name)
+		allIn = append(allIn, q.rin...)
+		allOut = append(allOut, q.rout...)
+	}
+	var hostAddrs []gcidr
+	var hostStrs []string
+	for i := 0; i < r.intn(3); i++ {
+		a := 10<<24 | uint32(r.intn(2))<<16 | uint32(200+i)
+		hostAddrs = append(hostAddrs, gcidr{addr: a, plen: 32})
+		hostStrs = append(hostStrs, ip4(a)+"/32")
+	}
+	upd := &proto.WorkloadEndpointUpdate{Id: &proto.WorkloadEndpointID{OrchestratorId: "k8s", WorkloadId: "ns1/pod", EndpointId: "eth0"}, Endpoint: wep}
+	var got []*hns.ACLPolicy
+	panicked := ""
+	func() {
+		defer func() {
+			if x := recover(); x != nil {
+				panicked = fmt.Sprint(x)
+			}
+		}()
+		var err error
+		got, err = windataplane.VerifRenderEndpoint(&fakeHNS{f: ps.VerifFeatures()}, ps, upd, hostStrs)
+		if err != nil {
+			panic("driver: CompleteDeferredWork failed: " + err.Error())
+		}
+	}()
+	if strings.HasPrefix(panicked, "driver:") {
+		panic(panicked)
+	}
+	impl := "None"
+	var prs []prule
+	if panicked == "" {
+		var parts []string
+		for _, a := range got {
+			pr := parseRule(a)
+			prs = append(prs, pr)
+			rt := "RSwitch"
+			if pr.host {
+				rt = "RHost"
+			}
+			parts = append(parts, fmt.Sprintf("(%s, %s)", rt, pr.coq()))
+		}
+		impl = "(Some [" + strings.Join(parts, ";") + "])"
+		tags = append(tags, "result:rules")
+	} else {
+		tags = append(tags, "result:panic")
+	}
+	pin := genPackets(r, w, allIn, 7)
+	pout := genPackets(r, w, allOut, 7)
+	if len(hostAddrs) > 0 {
+		pin = append(pin, pkt{proto: 6, src: hostAddrs[0].addr, dst: uniAddr(r), sport: 1000, dpt: 80})
+	}
+	var ct []string
+	for _, t := range tiers {
+		var cp []string
+		for _, q := range t.pols {
+			cp = append(cp, fmt.Sprintf("(mkTP %s %s %s (PS %s %s))", coqBool(q.present), coqBool(q.in), coqBool(q.out), coqRuleList(q.rin), coqRuleList(q.rout)))
+		}
+		ct = append(ct, fmt.Sprintf("(mkTS %s %s [%s])", coqBool(t.name == "default"), coqBool(t.defaultPass), strings.Join(cp, ";")))
+	}
+	var cpr []string
+	for _, q := range profs {
+		cpr = append(cpr, fmt.Sprintf("(PS %s %s)", coqRuleList(q.rin), coqRuleList(q.rout)))
+	}
+	coq := fmt.Sprintf("(EpCase (mkECase %s 4000 [%s] [%s] %s %s %s %s %s %s))%%N", w.coq(), strings.Join(ct, ";"), strings.Join(cpr, ";"),
+		coqCidrs(hostAddrs), coqBool(noHostPrio), coqBool(fixedTree), impl, coqPkts(pin), coqPkts(pout))
+	// does a Pass rule with ports meet a later rule with ports on the same side?  (combinePorts with two non-empty lists)
+	meets := func(inbound bool) bool {
+		var lists [][]*grule
+		defaultApplies := false
+		for _, t := range tiers {
+			var l []*grule
+			n := 0
+			for _, q := range t.pols {
+				if inbound && q.in {
+					l = append(l, q.rin...)
+					n++
+				}
+				if !inbound && q.out {
+					l = append(l, q.rout...)
+					n++
+				}
+			}
+			if n > 0 {
+				lists = append(lists, l)
+				if t.name == "default" {
+					defaultApplies = true
+				}
+			}
+		}
+		if len(lists) == 0 || !defaultApplies {
+			var l []*grule
+			for _, q := range profs {
+				if inbound {
+					l = append(l, q.rin...)
+				} else {
+					l = append(l, q.rout...)
+				}
+			}
+			lists = append(lists, l)
+		}
+		for i := 0; i+1 < len(lists); i++ {
+			for _, g := range lists[i] {
+				if g.action != "pass" {
+					continue
+				}
+				for _, side := range []bool{true, false} {
+					if !hasPorts(g, side) {
+						continue
+					}
+					for j := i + 1; j < len(lists); j++ {
+						for _, g2 := range lists[j] {
+							if hasPorts(g2, side) {
+								return true
+							}
+						}
+					}
+				}
+			}
+		}
+		return false
+	}
+	if meets(true) || meets(false) {
+		tags = append(tags, "has:pass-ports-meet-ports")
+	}
+	if fixedTree {
+		tags = append(tags, "tree:combine-ports-fixed")
+	} else {
+		tags = append(tags, "tree:combine-ports-unfixed")
+	}
+	tags = append(tags, fmt.Sprintf("tiers:%d", len(tiers)), fmt.Sprintf("profiles:%d", len(profs)))
+	nPass := 0
+	for _, g := range append(append([]*grule{}, allIn...), allOut...) {
+		if g.action == "pass" {
+			nPass++
+		}
+	}
+	if nPass > 0 {
+		tags = append(tags, "has:pass-rule")
+	}
+	var sample []string
+	for i, a := range got {
+		if i < 14 {
+			sample = append(sample, fmt.Sprintf("%d %s %s %s proto=%d L=%s:%s R=%s:%s", a.Priority, a.RuleType, a.Direction, a.Action, a.Protocol, a.LocalAddresses, a.LocalPorts, a.RemoteAddresses, a.RemotePorts))
+		}
+	}
+	return line{Coq: coq, NT: len(prs) >= 6 && nPass > 0 && len(tiers) > 0, Key: coq, Tags: tags,
+		Sample: map[string]any{"kind": kind, "tiers": len(tiers), "profiles": len(profs), "panic": panicked, "final_rules": sample}}
+}
+
+// rewritePriorities alone, with limits small enough to reach the "same priority for a group" branch
+func prioCase(r *rng) line {
+	n := r.intn(9)
+	var rules []*hns.ACLPolicy
+	var in []prule
+	for i := 0; i < n; i++ {
+		act := []hns.ActionType{hns.Allow, hns.Block, hns.Allow, policysets.ActionPass}[r.intn(4)]
+		if r.chance(50) && i > 0 {
+			act = rules[i-1].Action
+		}
+		a := &hns.ACLPolicy{Type: hns.ACL, RuleType: hns.Switch, Action: act, Direction: hns.In, Protocol: 256, Priority: uint16(1000 + r.intn(5)), LocalPorts: strconv.Itoa(80 + i)}
+		rules = append(rules, a)
+		in = append(in, parseRule(a))
+	}
+	limit := 1000 + r.intn(12)
+	if r.chance(20) {
+		limit = 65000
+	}
+	windataplane.VerifRewritePriorities(rules, uint16(limit))
+	var out []prule
+	for _, a := range rules {
+		out = append(out, parseRule(a))
+	}
+	coq := fmt.Sprintf("(PrioCase (mkPCase %d %s %s))%%N", limit, coqRules(in), coqRules(out))
+	tag := "branch:always-increment"
+	if n >= limit-1000 {
+		tag = "branch:groups"
+	}
+	return line{Coq: coq, NT: n >= 3, Key: coq, Tags: []string{"kind:rewrite-priorities", tag},
+		Sample: map[string]any{"kind": "rewrite-priorities", "limit": limit, "n": n}}
 }
